@@ -1438,6 +1438,18 @@ pub fn world_b_idle(property: &str, scenario: &str, seed: u64, run: u64, thoroug
     plan.push(0, 2, Op::Link { from: None, to: None, rule: clean_rule(latency) });
     let c = topo.clients[0];
     plan.push(1000, 1, Op::Create { ep: c });
+    // a third of the runs: the connection that idles is the second one from this address - the
+    // first was closed by the client, the server application dropped the lingering entry, and
+    // the client came back at once (nothing of the first life may touch the second)
+    if r.chance(0.33) {
+        let t_disc = r.range(1_000_000, 3_000_000);
+        plan.push(t_disc, 4, Op::Disconnect { ep: c, to: None });
+        let t_drop = t_disc + r.range(300_000, 2_000_000);
+        plan.push(t_drop, 4, Op::ServerDrop { ep: 0, to: c });
+        let t_back = t_drop + r.range(200_000, 5_000_000);
+        plan.push(t_back, 1, Op::Destroy { ep: c });
+        plan.push(t_back + 1000, 1, Op::Create { ep: c });
+    }
     let hours = r.range(1, if thorough { 6 } else { 2 });
     let horizon = hours * 3_600_000_000;
     plan.push(2000, 3, Op::StepEvery { ep: c, period_us: period_c, until_us: horizon });
